@@ -73,13 +73,37 @@ class HarnessBuildError(Exception):
     pass
 
 
-def build_harness():
-    """(Re)build `vh` against /repo's current working tree (path dependency)."""
+def build_harness(bins=("vh",)):
+    """(Re)build harness binaries against /repo's current working tree (path
+    dependency).  Only the named binaries are built, so a broken sibling
+    binary never blocks a check."""
+    cmd = ["cargo", "build", "--offline"]
+    for b in bins:
+        cmd += ["--bin", b]
+    lock = os.path.join(HARNESS, "Cargo.lock")
+    try:
+        src = open(os.path.join(REPO, "Cargo.lock")).read()
+        if not os.path.exists(lock) or open(lock).read() != src:
+            open(lock, "w").write(src)
+    except OSError:
+        pass
     with Lock("cargo"):
-        rc, out, err = sh(["cargo", "build", "--offline"], cwd=HARNESS, timeout=1800)
+        rc, out, err = sh(cmd, cwd=HARNESS, timeout=1800)
     if rc != 0:
         raise HarnessBuildError(err[-6000:])
     return VH
+
+
+def run_bin(binname, cases, args=(), timeout=1800):
+    """Run harness binary `binname` over JSON-lines cases; returns results."""
+    inp = "".join(json.dumps(c) + "\n" for c in cases)
+    rc, out, err = sh([os.path.join(TARGET, "debug", binname), *args], input=inp, timeout=timeout)
+    if rc != 0:
+        raise RuntimeError("%s failed rc=%s: %s" % (binname, rc, err[-2000:]))
+    res = [json.loads(l) for l in out.splitlines() if l.strip()]
+    if len(res) != len(cases):
+        raise RuntimeError("%s: %d results for %d cases" % (binname, len(res), len(cases)))
+    return res
 
 
 def run_vh(sub, cases, args=(), timeout=1800):
@@ -108,11 +132,9 @@ def regen_tables(which="all"):
 def coq_make(targets, timeout=3000):
     """Full .vo build (never -vos) of the given targets under a lock."""
     with Lock("coqmake"):
-        if not os.path.exists(os.path.join(COQ, "Makefile.coq")) or \
-           os.path.getmtime(os.path.join(COQ, "_CoqProject")) > os.path.getmtime(os.path.join(COQ, "Makefile.coq")):
-            rc, out, err = sh("coq_makefile -f _CoqProject -o Makefile.coq", cwd=COQ, timeout=120)
-            if rc != 0:
-                return False, out + err
+        rc, out, err = sh([os.path.join(ROOT, "bin", "coqproject")], cwd=COQ, timeout=120)
+        if rc != 0:
+            return False, out + err
         rc, out, err = sh(
             ["timeout", str(timeout), "make", "-f", "Makefile.coq", "-j%d" % NCPU, *targets],
             cwd=COQ, timeout=timeout + 60)
@@ -309,6 +331,13 @@ class Ctx:
         self.log_lines = []
         kf = os.path.join(ROOT, "known_findings.json")
         self.known_findings = json.load(open(kf)) if os.path.exists(kf) else {"findings": [], "fixed": []}
+        fd = os.path.join(ROOT, "findings")
+        if os.path.isdir(fd):
+            for fn in sorted(os.listdir(fd)):
+                if fn.endswith(".json"):
+                    extra = json.load(open(os.path.join(fd, fn)))
+                    self.known_findings["findings"] += extra.get("findings", [])
+                    self.known_findings["fixed"] += extra.get("fixed", [])
 
     def log(self, *a):
         s = " ".join(str(x) for x in a)
